@@ -313,6 +313,31 @@ fn main() {
             HOST_STATUS.store(200, std::sync::atomic::Ordering::SeqCst);
             host_refused_total += refused_n;
         }
+        // a denied request that announces a body and never finishes sending it (content-length larger than what comes, an
+        // open chunk): refused and recorded at once, not when the client gives up
+        if pol.enforce() {
+            let c = &callers[1];
+            let denied = !pol.disabled() && !pol.allows(c.user, URLS[1]);
+            if denied {
+                for (label, raw) in [
+                    ("content-length-100-only-3-bytes-sent", format!("POST {} HTTP/1.1\r\nHost: h\r\nContent-Length: 100\r\n\r\nabc", URLS[1]).into_bytes()),
+                    ("chunked-body-left-open", format!("POST {} HTTP/1.1\r\nHost: h\r\nTransfer-Encoding: chunked\r\n\r\n5\r\nhello\r\n", URLS[1]).into_bytes()),
+                    ("head-only-content-length-100", format!("POST {} HTTP/1.1\r\nHost: h\r\nContent-Length: 100\r\n\r\n", URLS[1]).into_bytes()),
+                ] {
+                    w.rt.block_on(async { st_shared.clear_all_summary().await.unwrap() });
+                    sport = if sport >= 35000 { 33000 } else { sport + 1 };
+                    let mut cl = w.connect(Some(sport), Some(&AuditRec::to(c.dest, c.uid, c.pid, c.is_root))).unwrap();
+                    let _ = cl.send(&raw);
+                    let st = cl.read_response(false, Duration::from_secs(3)).map(|m| m.status());
+                    let recorded: u64 = read_summary(&w).values().sum();
+                    evals += 1;
+                    if st != Ok(403) || recorded != 1 {
+                        res.violation("enforce:denial-waits-for-the-body", &format!("a denied request whose body never completes ({label}): the client, still connected, got {:?} within 3 s and {recorded} denial(s) are recorded (expected 403 and 1)", st), json!({"mode": mode, "default_allow": default_allow, "family": "denied-request-with-unfinished-body", "shape": label}));
+                    }
+                    cl.close();
+                }
+            }
+        }
         // concurrent block: 3 keep-alive connections, the same denied request on each, interleaved
         {
             w.rt.block_on(async { st_shared.clear_all_summary().await.unwrap() });
@@ -488,7 +513,7 @@ fn main() {
     res.cov("status_json_comparisons", status_json_checked);
     res.cov("exhaustive", true);
     res.cov("host_refused_requests", host_refused_total);
-    res.cov("rule", format!("every history of <= {max_len} requests over {{alice, bob -> IMDS; two elevated root processes -> WireServer, one of them also -> HostGAPlugin}} x 3 URLs (granted, matched-but-ungranted, unmatched) x {{host answers, host resets the connection}} (length-3 histories without the second root process), plus every caller x URL twice while the host answers relayed requests with 401 / 403 / 500, plus 5 identical denials, 6 denials on 3 concurrent keep-alive connections, a denied request on a connection that was opened (and served) while the rules were disabled, a denied request after the host closed the relay connection, 520 (1100) denied requests from as many different processes, and a sampled burst of 250 (600) concurrent denied requests, under {} mode/default configurations; after every request the public failed-authorization summary is compared with the reference multiset (user, process path, command line, destination -> count); status.json of the real status task is compared for every 3rd (quick: 7th) history (status interval 2 ms) and every 5-denial block; non-trivial = request the rules deny", configs.len()));
+    res.cov("rule", format!("every history of <= {max_len} requests over {{alice, bob -> IMDS; two elevated root processes -> WireServer, one of them also -> HostGAPlugin}} x 3 URLs (granted, matched-but-ungranted, unmatched) x {{host answers, host resets the connection}} (length-3 histories without the second root process), plus every caller x URL twice while the host answers relayed requests with 401 / 403 / 500, plus denied requests whose announced body never completes (403 and the record at once), plus 5 identical denials, 6 denials on 3 concurrent keep-alive connections, a denied request on a connection that was opened (and served) while the rules were disabled, a denied request after the host closed the relay connection, 520 (1100) denied requests from as many different processes, and a sampled burst of 250 (600) concurrent denied requests, under {} mode/default configurations; after every request the public failed-authorization summary is compared with the reference multiset (user, process path, command line, destination -> count); status.json of the real status task is compared for every 3rd (quick: 7th) history (status interval 2 ms) and every 5-denial block; non-trivial = request the rules deny", configs.len()));
     res.assume("audit-mode denials are compared with the same request under an allowing rule set (status and what the host received, modulo date/MAC headers)");
     std::process::exit(res.finish());
 }
